@@ -222,7 +222,9 @@ def run(ctx):
                     # the snapshot collection is what some loop ranges over - directly, through .values() / .items(), or handed
                     # to map() / zip() / enumerate()
                     loops = [l for l in ast.walk(b) if isinstance(l, (ast.For, ast.comprehension)) and (coll == norm(l.iter) or norm(l.iter).startswith(coll + ".") or any(isinstance(x, (ast.Name, ast.Attribute)) and norm(x) == coll for x in ast.walk(l.iter)))]
-                    good = bool(loops)
+                    # ... or what a functional pipeline consumes: map(f, snapshots.values()) / reduce / chain.from_iterable / zip
+                    pipes = [c_ for c_ in ast.walk(b) if isinstance(c_, ast.Call) and norm(c_.func).split(".")[-1] in ("map", "filter", "reduce", "starmap", "from_iterable", "chain", "zip", "enumerate", "accumulate", "sum") and any(isinstance(x, (ast.Name, ast.Attribute)) and norm(x) == coll for a_ in c_.args for x in ast.walk(a_))]
+                    good = bool(loops) or bool(pipes)
                     ok_any = ok_any or good
                     # positively another collection: a plain name / attribute that no loop of the function ranges over
                     plain = isinstance(carg, (ast.Name, ast.Attribute)) or (isinstance(carg, ast.Call) and isinstance(carg.func, ast.Attribute) and carg.func.attr in ("get_nodes", "get_edges", "num_nodes", "num_edges", "get_times", "keys", "values"))
